@@ -53,7 +53,7 @@ extern "C" void harness_exec(void) {
   I.state = RuleInfo::StateKind::Complete; I.result.builtAt = E; I.result.computedAt = nondet_u64(); VF_ASSUME(I.result.computedAt >= 1 && I.result.computedAt <= E);
   uint8_t inVal = nondet_u8(); I.result.value.reserve(2); I.result.value.push_back(inVal);
   RuleInfo& R = newRuleInfo(16, nondet_u64()); g_R = &R;
-  uint64_t B = nondet_u64(); VF_ASSUME(B < E); R.result.builtAt = B; R.result.computedAt = nondet_u64(); VF_ASSUME(R.result.computedAt <= B);
+  uint64_t B = nondet_u64(); VF_ASSUME(B < E); R.result.builtAt = B; R.result.computedAt = nondet_u64(); VF_ASSUME(B == 0 ? R.result.computedAt < E : R.result.computedAt <= B); const uint64_t C0 = R.result.computedAt;   // Inv(i)
   uint8_t oldVal = nondet_u8(); R.result.value.reserve(2); R.result.value.push_back(oldVal);
   HTask* T = new HTask; g_T = T;
   auto res = impl->taskInfos.emplace(T, TaskInfo(T)); TaskInfo* ti = &res.first->second; ti->forRuleInfo = &R;
@@ -89,7 +89,7 @@ extern "C" void harness_exec(void) {
   VF_ASSERT(R.state == RuleInfo::StateKind::Complete && R.result.builtAt == E, "the rule is complete in this build");
   bool changed = g_force || g_newValue != oldVal;
   VF_ASSERT(R.result.value.size() == 1 && R.result.value[0] == (changed ? g_newValue : oldVal), "the value the task produced is stored");
-  VF_ASSERT(changed ? R.result.computedAt == E : R.result.computedAt <= B, "computedAt advances iff the value changed or the change was forced");
+  VF_ASSERT(R.result.computedAt == (changed ? E : C0), "computedAt advances iff the value changed or the change was forced");
   VF_ASSERT(R.result.signature.value == R.rule->signature.value, "the rule's signature is recorded");
   VF_ASSERT(impl->taskInfos.empty() && impl->numOutstandingUnfinishedTasks == 0 && impl->readyTaskInfos.empty() && impl->finishedTaskInfos.empty() && impl->inputRequests.empty() && impl->finishedInputRequests.empty(),
             "nothing is left in any queue and no task is outstanding");
